@@ -37,6 +37,10 @@ type Spec struct {
 	Outside     []string       `json:"outside_bounds"`
 	Bounds      map[string]string `json:"bounds"`
 	NativeOnlyReplay bool      `json:"native_driver"` // replay uses harness/<id>/replay_test.go
+	// ExtraOverlay: repo-relative package dir -> file in harness/<id>/ (not ending in .go, e.g.
+	// "export_db.go.txt") overlaid into THAT package as zz_verif_<id>_<file>.go; used to export
+	// unexported functions of a second package to the harness package.
+	ExtraOverlay map[string]string `json:"extra_overlay"`
 }
 
 type EntrySpec struct {
@@ -167,6 +171,14 @@ func buildOverlay(spec *Spec, forTest bool) (map[string][]byte, error) {
 	}
 	if pkgName == "" {
 		return nil, fmt.Errorf("no harness .go file in %s", hdir)
+	}
+	for dir, file := range spec.ExtraOverlay {
+		b, err := os.ReadFile(filepath.Join(hdir, file))
+		if err != nil {
+			return nil, err
+		}
+		base := strings.TrimSuffix(strings.TrimSuffix(file, ".txt"), ".go")
+		ov[filepath.Join(repoDir, dir, "zz_verif_"+spec.Property+"_"+base+".go")] = b
 	}
 	api, err := os.ReadFile(filepath.Join(verifDir, "harness", "api", "api.go.txt"))
 	if err != nil {
